@@ -11,7 +11,7 @@ BASELINE = ("cd /repo && /venv/bin/python -m pytest -ra -q -p no:cacheprovider -
 m = {
     "version": 1,
     "setup_cmd": "./setup",
-    "hooks": {"guard": "PYELFTOOLS_VERIF", "enable": "none needed: no hook or instrumentation commits; the harness observes the public API on BytesIO streams",
+    "hooks": {"guard": "PYELFTOOLS_VERIF", "enable": "none needed: no hook or instrumentation commits; the harnesses observe the public API on BytesIO streams and on temporary real files they create and remove",
               "baseline_off_cmd": BASELINE, "source_commits": [], "add_only": True},
     "engines": [{"name": "coq-proof+correspondence", "path": "check",
                  "serves_properties": sorted(PROPS),
